@@ -109,6 +109,8 @@ def run(ctx):
     omit_rule(ctx, syn, rid="C18.OMIT")
     fresh_rule(ctx, mirq.Program(ctx.facts.mir()))
     from props.c05 import alwaysid_rule
+    from props.c05 import resolve_rule
+    resolve_rule(ctx, rid="C18.RESOLVE")   # a reload that reads a stale same-named file validates against the wrong text
     alwaysid_rule(ctx, rid="C18.ALWAYSID")   # a reference re-attached to another annotation validates against the wrong text
     fns = [f for f in syn.fns if f.file == FILE]
     by = {}
